@@ -504,3 +504,65 @@ def rule_contiguity_full_extent(ctx):
     else:
         ctx.holds("CONTIG", key, f.where(stops[0][4]), "`%s` compares the edge with the full dimension" % render(stops[0][1])[:50], nontrivial=True)
     return 1
+
+
+def _limit_names(f, lo=None, hi=None):
+    """names of H4_MAX_* constants compared in branch conditions of f (optionally restricted to a line interval)"""
+    from .facts import int_name
+    out = set()
+    for b in f.blocks.values():
+        t = b.get("term")
+        if not t or t.get("cond") is None:
+            continue
+        ln = t.get("l") or 0
+        if (lo is not None and ln < lo) or (hi is not None and ln >= hi):
+            continue
+        for y in walk(t["cond"], True):
+            nm = int_name(y) if y[0] == "int" else None
+            if nm and nm.startswith("H4_MAX"):
+                out.add(nm)
+    return out
+
+
+def rule_refuse_before_mutation(ctx):
+    """REFUSEFIRST (C20): SDcreate appends the new data set's dimensions to the file's dimension list before it creates the
+    variable.  A request that exceeds a documented maximum (rank, name length, number of data sets) must be refused before that
+    first mutation — otherwise the refused call leaves dimensions behind, later data sets get shifted dimension names and SDend
+    writes orphans.  Every H4_MAX_* limit that SDcreate or a routine it calls after the mutation compares against is therefore
+    also compared in SDcreate before the mutation."""
+    prog = ctx.prog
+    f = prog.func("SDcreate")
+    key = "REFUSEFIRST:SDcreate"
+    if f is None:
+        ctx.unrecognised("REFUSEFIRST", key, "-", "SDcreate not found")
+        return 0
+    muts = [c[5] for _b, _i, _s, c in f.calls() if c[1] in ("NC_incr_array", "NC_new_array", "H4_NC_incr_array", "H4_NC_new_array")
+            and any(y[0] == "mem" and y[2] == "dims" for a in c[3] for y in walk(a, True))]
+    muts += [x[4] for _b, _i, _s, x in f.nodes(True) if x[0] == "asg" and (mem_field(x[2]) or (0, 0))[1] == "dims" and (mem_field(x[2]) or (0, 0))[0] == "NC"]
+    if not muts:
+        ctx.unrecognised("REFUSEFIRST", key, f.where(), "no mutation of handle->dims found")
+        return 0
+    first = min(muts)
+    pre = _limit_names(f, hi=first)
+    post = _limit_names(f, lo=first)
+    via = {}
+    seen = set()
+    work = [(c[1], 0) for _b, _i, _s, c in f.calls() if c[5] >= first and c[1]]
+    while work:
+        nm, d = work.pop()
+        if nm in seen or d > 2:
+            continue
+        seen.add(nm)
+        g = prog.func(nm) or prog.func("H4_" + nm)
+        if g is None or g.name == f.name:
+            continue
+        for l in _limit_names(g):
+            via.setdefault(l, g.name)
+        work.extend((c[1], d + 1) for _b, _i, _s, c in g.calls() if c[1])
+    late = sorted((post | set(via)) - pre)
+    if late:
+        ctx.violated("REFUSEFIRST", key, f.where(first), "the limit(s) %s are enforced only after the data set's dimensions have been appended to the file's dimension list (line %d)%s: "
+                     "a refused SDcreate leaves those dimensions in the file" % (", ".join(late), first, "".join("; %s in %s" % (l, via[l]) for l in late if l in via)))
+    else:
+        ctx.holds("REFUSEFIRST", key, f.where(first), "%s are all checked before the first mutation of the dimension list" % ", ".join(sorted(post | set(via))), nontrivial=True)
+    return 1
